@@ -653,3 +653,16 @@ pub fn gen_stream(rng: &mut Rng, min_plain: usize, max_plain: usize) -> (Compres
     let raw = compressor.compress(&plain);
     (compressor, plain, raw)
 }
+
+/// incompressible bytes that contain no wrapper signature (0x78, 'P', 0x1f, 'I' are replaced), so
+/// that the scanner probes nothing and the expanded form is one literal chunk of `len` bytes
+pub fn gen_incompressible(rng: &mut Rng, len: usize) -> Vec<u8> {
+    let mut v = vec![0u8; len];
+    rng.fill(&mut v);
+    for b in v.iter_mut() {
+        if matches!(*b, 0x78 | 0x50 | 0x1f | 0x49) {
+            *b ^= 0x80;
+        }
+    }
+    v
+}
